@@ -150,7 +150,7 @@ async def execute(net, hyg, plan):
         leaks = w.leaks()
         for leak in leaks:
             viol.append({"key": f"leak-after-fault:{site}", "msg": f"{leak} after the sessions ended (fault at {site})"})
-        await w.server.close()
+        await w.stop()
         return {"violations": viol, "monitors": mon, "ncalls": ncalls, "site": site,
                 "by": by.peer.normalized() if by is not None else None,
                 "sig": sig_of([plan["script"], site, plan.get("exc"), s.flat_codes()]),
@@ -164,7 +164,7 @@ def run_plan(plan):
         return await execute(net, hyg, plan)
     res, info = W.run(main, seed=plan.get("seed", 0), net_kwargs=dict(mss=plan.get("mss", 1460), latency=0.001))
     if res is None:
-        return {"inconclusive": info.get("deadlock") or info.get("error"), "trace": info.get("trace", "")}
+        return W.failed(info)
     le = [e for e in info["hygiene"].loop_errors]
     if le:
         res["violations"].append({"key": f"exception-reached-loop:{res.get('site')}", "msg": f"{le[:2]}"})
